@@ -91,6 +91,47 @@ def run(m: Model, r: Report, tier: str) -> None:
                 r.check(wakes, "R1", f"{f.qualname}#woken-on-eof",
                         f"a caller blocked in {ast.unparse(n)} (no caller timeout) is never woken when {worker.qualname} ends on EOF/reset: "
                         "nothing is put into the queue and the waiter is not cancelled", loc=f"{f.module.relpath}:{n.lineno}")
+        # the wake-up marker close() puts into a queue is recognised by every waiter: the awaited value is tested against None and that branch raises
+        marker_queues = {ast.unparse(n.func.value) for n in ast.walk(close.node) if isinstance(n, ast.Call) and isinstance(n.func, ast.Attribute)
+                         and n.func.attr == "put_nowait" and n.args and isinstance(n.args[0], ast.Constant) and n.args[0].value is None} if close is not None else set()
+        for f in conn.methods.values():
+            for n in walk_no_nested(f.node):
+                if not (isinstance(n, ast.Assign) and isinstance(n.value, ast.Await) and isinstance(n.value.value, ast.Call) and isinstance(n.value.value.func, ast.Attribute)
+                        and n.value.value.func.attr == "get" and ast.unparse(n.value.value.func.value) in marker_queues and isinstance(n.targets[0], ast.Name)):
+                    continue
+                v_ = n.targets[0].id
+                gfn = CFG(f.node)
+                start = [x.id for x in gfn.nodes.values() if x.kind == "stmt" and x.ast is n]
+                tests_ = [x for x in gfn.nodes.values() if x.kind == "cond" and x.ast is not None and ast.unparse(x.ast) in (f"{v_} is None", f"{v_} is not None")]
+
+                def value_edge(node, b, k, _v=v_, _g=gfn):
+                    # remove the branches taken for a real frame: what stays reachable is what happens for the marker
+                    if node.kind != "cond" or node.ast is None or k != "n":
+                        return False
+                    normal = [x for x, kk in _g.succ[node.id] if kk == "n"]
+                    if len(normal) != 2:
+                        return False
+                    txt = ast.unparse(node.ast)
+                    return (txt == f"{_v} is None" and b == normal[1]) or (txt == f"{_v} is not None" and b == normal[0])
+                okm_ = bool(start) and bool(tests_) and gfn.must_pass(start[0], set(), {gfn.exit_return}, skip_edge=value_edge)[0]
+                r.check(okm_, "R1", f"{f.qualname}#marker-raises", f"the value awaited from {ast.unparse(n.value.value.func.value)} can be the wake-up marker None put by close(): "
+                        "it must be tested and must end in an exception, never be returned as a frame", loc=f"{f.module.relpath}:{n.lineno}")
+                # ... and the exception is one the UDS client understands as a lost connection (it reconnects and retries on ConnectionError only)
+                if start:
+                    seen_, todo_ = {start[0]}, [start[0]]
+                    while todo_:
+                        cur_ = todo_.pop()
+                        for b_, k_ in gfn.succ.get(cur_, []):
+                            if k_ != "n" or b_ in seen_ or value_edge(gfn.nodes[cur_], b_, k_):
+                                continue
+                            seen_.add(b_)
+                            todo_.append(b_)
+                    raised = [x.ast for i_ in seen_ for x in [gfn.nodes[i_]] if x.kind == "raise" and isinstance(x.ast, ast.Raise) and x.ast.exc is not None]
+                    names_ = [ast.unparse(x.exc.func if isinstance(x.exc, ast.Call) else x.exc) for x in raised]
+                    fam = {"ConnectionError", "BrokenPipeError", "ConnectionResetError", "ConnectionAbortedError", "ConnectionRefusedError"}
+                    r.check(bool(names_) and all(nm in fam for nm in names_), "R1", f"{f.qualname}#marker-error-kind",
+                            f"a waiter woken by close() ends with {names_}: it must be a ConnectionError (the UDS client turns only that into reconnect + MissingResponse; "
+                            "any other error is passed through to the caller of the request)", loc=f"{f.module.relpath}:{n.lineno}")
         # R2
         g = CFG(worker.node)
         marks = {n.id for n in g.nodes.values() if n.ast is not None and n.kind == "stmt" and
@@ -104,12 +145,33 @@ def run(m: Model, r: Report, tier: str) -> None:
     # R3
     for fq, flag in ((f"{DOIP}.DoIPConnection.read_frame_unsafe", "_is_closed"), (f"{HSFZ}.HSFZConnection.read_frame", "_closed")):
         f = m.require_function(fq)
-        first = f.node.body[0]
-        if isinstance(first, ast.Expr) and isinstance(first.value, ast.Constant):
-            first = f.node.body[1]
-        okf = isinstance(first, ast.If) and ast.unparse(first.test) == f"self.{flag}" and any(isinstance(s, ast.Raise) for s in ast.walk(first))
-        gets = [n.lineno for n in ast.walk(f.node) if isinstance(n, ast.Call) and ast.unparse(n.func).endswith("_read_queue.get")]
-        r.check(okf and gets and first.lineno < min(gets), "R3", f"{fq}#closed-check", "the closed flag must be tested (and raise) before waiting on the queue", loc=f.loc)
+        # with the flag set, neither the wait on the queue nor a normal return is reachable (paths through the CFG with the flag-clear branches removed)
+        gets = [n for n in ast.walk(f.node) if isinstance(n, ast.Call) and ast.unparse(n.func).endswith("_read_queue.get")]
+        if len(gets) != 1:
+            raise AnalysisError(f"{fq}: expected one wait on the frame queue, found {len(gets)}")
+        gf = CFG(f.node)
+        get_nodes = {n.id for n in gf.nodes.values() if n.ast is not None and n.kind in ("stmt", "return") and any(x is gets[0] for x in ast.walk(n.ast))}
+        tests = [n for n in gf.nodes.values() if n.kind == "cond" and n.ast is not None and ast.unparse(n.ast) in (f"self.{flag}", f"not self.{flag}")]
+        if not get_nodes:
+            raise AnalysisError(f"{fq}: the wait on the frame queue is not a statement of the function")
+
+        def clear_edge(node, b, k, _flag=flag, _g=gf):
+            if node.kind != "cond" or node.ast is None or k != "n":
+                return False
+            normal = [x for x, kk in _g.succ[node.id] if kk == "n"]
+            if len(normal) != 2:
+                return False
+            txt = ast.unparse(node.ast)
+            if txt == f"self.{_flag}":
+                return b == normal[1]
+            if txt == f"not self.{_flag}":
+                return b == normal[0]
+            return False
+        no_wait, _p1 = gf.must_pass(gf.entry, set(), get_nodes, skip_edge=clear_edge)
+        no_return, _p2 = gf.must_pass(gf.entry, set(), {gf.exit_return}, skip_edge=clear_edge)
+        r.check(bool(tests) and no_wait and no_return, "R3", f"{fq}#closed-check",
+                f"on a closed connection (self.{flag} set) the function must raise without waiting on the queue (flag tested: {bool(tests)}, wait unreachable: {no_wait}, "
+                f"no normal return: {no_return})", loc=f.loc)
 
     # ---------------------------------------------------------------- R4
     tr.ack_timeout_handler(m, r, "R4", m.require_function(f"{DOIP}.DoIPConnection.write_request_raw"), "self._read_ack")
